@@ -290,6 +290,8 @@ def run(ctx, rep) -> None:
                   "; ".join(bad) + ": a RUNNING stage whose planned children already completed is taken for a crashed planning, so the StartStage the sweep re-queues for it plans (and runs) its children a second time",
                   sir.file, fall.lineno, disc="zombie-evidence")
 
+    _r7_synthetic_children(ctx, rep, T)
+
     # ---- R6 -------------------------------------------------------------------------------------
     from ..statuspred import status_set
     # reference: the condition under which the healthy run pushes StartTask(first task) for a stage with before-stages
@@ -331,6 +333,76 @@ def run(ctx, rep) -> None:
                       f"`{atom}` is tested but does not have to be true where StartTask is built", fi.file, c.lineno, disc="starttask-before-stages")
             rep.check(pset == ref, "C10.R6", "recovery and ContinueParentStage agree on when before-stages are complete", f"recovery: {sorted(pset) if pset else pset}; ContinueParentStage all_complete: {sorted(ref)}",
                       helper.file, helper.node.lineno, disc="before-complete-agreement")
+
+
+def _r7_synthetic_children(ctx, rep, T) -> None:
+    """A pre-declared synthetic child has no requisites of its own; what orders it is its PARENT's progress. The sweep may
+    re-queue its StartStage only where the healthy run pushes it: parent RUNNING (before-children: StartStage plans them
+    with the parent; after-children: additionally the parent's own work is done or its on-failure phase was planned)."""
+    from ..dom import conditions_at
+    from ..statuspred import status_set
+    prog = ctx.prog
+    rep.rule("C10.R7", "_can_start grants a stage with parent_stage_id only under a parent-state test (parent RUNNING; after-children: parent's tasks and before-stages finished or on-failure planned)")
+    cs = prog.func(REC, "WorkflowRecovery._can_start")
+    rcls = prog.cls(REC, "WorkflowRecovery")
+    trues = [r for r in ast.walk(cs.node) if isinstance(r, ast.Return) and r.value is not None and norm(r.value) != "False"]
+    rep.floor("_can_start positive returns", len(trues), 2)
+    helper = None
+    for r in trues:
+        facts = conditions_at(cs.node, r)
+        guarded = False
+        for text, truth in facts:
+            if text == "stage.parent_stage_id is None" and truth:
+                guarded = True
+            if "parent_stage_id" in text or "_parent_allows_start" in text or "parent" in text.lower():
+                # `stage.parent_stage_id is not None and not self._helper(stage, workflow)` False  =>  no parent, or helper True
+                guarded = True
+                for c in ast.walk(ast.parse(text, mode="eval")):
+                    if isinstance(c, ast.Call) and isinstance(c.func, ast.Attribute) and isinstance(c.func.value, ast.Name) and c.func.value.id == "self":
+                        helper = prog.find_method(rcls, c.func.attr) or helper
+        rep.check(guarded, "C10.R7", "_can_start: a synthetic child is granted only after a parent-state test", f"return at line {r.lineno} reached only with a decided parent test" if guarded else
+                  f"`{norm(r)}` at line {r.lineno} is reached for a stage with parent_stage_id without any test of the parent: a pre-declared STAGE_AFTER / STAGE_BEFORE child (no requisites) counts as an initial stage, "
+                  "so a sweep during a healthy run re-queues its StartStage while the parent has not reached that point - the child runs ahead of the parent's own tasks / before the parent's upstreams finished",
+                  cs.file, r.lineno, disc="synthetic-child-ungated")
+    if helper is None:
+        return
+    # the helper: parent must be RUNNING; after-children additionally need the parent's core work finished
+    hn = helper.node
+    neg_returns = [r for r in ast.walk(hn) if isinstance(r, ast.Return) and norm(r.value) == "False"]
+    running_gate = False
+    for r in neg_returns:
+        for text, truth in conditions_at(hn, r):
+            try:
+                ss = status_set(ast.parse(text, mode="eval").body, "parent.status", T)
+            except SyntaxError:
+                ss = None
+            if ss is not None:
+                refused = ss if truth else frozenset(T.members) - ss
+                if frozenset(T.members) - refused == frozenset({"RUNNING"}):
+                    running_gate = True
+    rep.check(running_gate, "C10.R7", f"{helper.qualname}: the parent must be RUNNING", "every parent status except RUNNING refuses the child", helper.file, hn.lineno, disc="parent-running")
+    fin = [r for r in ast.walk(hn) if isinstance(r, ast.Return) and isinstance(r.value, ast.Call) and norm(r.value.func) == "all"]
+    ok = False
+    detail = "no all(...) over the parent's tasks / before-stages found"
+    for r in fin:
+        g = r.value.args[0] if r.value.args else None
+        if isinstance(g, ast.GeneratorExp):
+            var = norm(g.generators[0].target)
+            named = {}
+            for a_ in ast.walk(hn):
+                if isinstance(a_, ast.Assign) and isinstance(a_.targets[0], ast.Name):
+                    from ..status_tables import _member_set
+                    ms = _member_set(a_.value)
+                    if ms is not None:
+                        named[a_.targets[0].id] = ms
+            ss = status_set(g.elt, var, T, named) or status_set(g.elt, var + ".status", T, named)
+            src = norm(g.generators[0].iter)
+            srcdef = [a_ for a_ in ast.walk(hn) if isinstance(a_, ast.Assign) and norm(a_.targets[0]) == src]
+            src_txt = norm(srcdef[0].value) if srcdef else src
+            want = frozenset({"SUCCEEDED", "SKIPPED", "FAILED_CONTINUE"})
+            ok = ss is not None and ss <= T.sets["CONTINUABLE_STATUSES"] and ss >= want - {"REDIRECT"} and "parent.tasks" in src_txt and "STAGE_BEFORE" in src_txt
+            detail = f"all(x in {sorted(ss) if ss else ss}) over `{src_txt[:100]}`"
+    rep.check(ok, "C10.R7", f"{helper.qualname}: an after-child needs the parent's tasks and before-stages finished", detail, helper.file, hn.lineno, disc="after-child-core-done")
 
 
 def dominating_tests_raw(fn: ast.FunctionDef, target: ast.AST) -> list:
